@@ -33,6 +33,7 @@ func init() {
 			{"C10-R7", "ambient: PERMISSIVE and DISABLE are treated alike wherever a non-STRICT mode is looked for", c10r7},
 			{"C10-R8", "client-side inference: a TLS-on answer always comes after the namespace/mesh policy was consulted", c10r8},
 			{"C10-R9", "per-port passthrough chains: the policy's port is matched against workload-side ports only", c10r9},
+			{"C10-R10", "every component uses one predicate for a PeerAuthentication without workload selector", c10r10},
 		},
 	})
 }
@@ -870,5 +871,115 @@ func c10r9(c *Ctx) {
 	scan(fn, paramNamed(fn, "port"), 2)
 	c.Check("needPerPortPassthroughFilterChain compares the port with the Sidecar ingress ports and the service targets", fn.Pos(), n >= 2,
 		"fewer than two comparisons of the port argument found")
+	c.Floor(3)
+}
+
+// C10-R10: one predicate for "this PeerAuthentication has no workload selector". A policy whose selector is present but
+// empty (`selector: {}`) is namespace-/mesh-level for the sidecar side (addPeerAuthentication) and for the ambient
+// function that picks the policy keys of a workload; it must be for every other place that classifies a
+// PeerAuthentication by its selector too, or the levels the components compose differ. Sibling rule: every test
+// `selector == nil` on the selector of a PeerAuthentication is immediately paired (on its non-nil edge) with a test of
+// len(MatchLabels). Places that ask through the nil-safe getters (len(GetSelector().GetMatchLabels())) have no nil test
+// and are complete by themselves.
+func c10r10(c *Ctx) {
+	p := c.P
+	isPASelector := func(v ssa.Value) bool {
+		pt, ok := v.Type().(*types.Pointer)
+		if !ok {
+			return false
+		}
+		n, ok := pt.Elem().(*types.Named)
+		if !ok || n.Obj().Name() != "WorkloadSelector" {
+			return false
+		}
+		// origin: field Selector of / GetSelector() on a security PeerAuthentication
+		isPA := func(t types.Type) bool {
+			if q, ok := t.(*types.Pointer); ok {
+				t = q.Elem()
+			}
+			nn, ok := t.(*types.Named)
+			return ok && nn.Obj().Name() == "PeerAuthentication" && nn.Obj().Pkg() != nil && strings.HasSuffix(nn.Obj().Pkg().Path(), "security/v1beta1")
+		}
+		switch x := v.(type) {
+		case *ssa.UnOp:
+			if fa, ok := x.X.(*ssa.FieldAddr); ok && x.Op == token.MUL {
+				return fieldVar(fa.X.Type(), fa.Field).Name() == "Selector" && isPA(fa.X.Type())
+			}
+		case *ssa.Call:
+			if o := calleeObj(x); o != nil && o.Name() == "GetSelector" && len(x.Call.Args) > 0 {
+				return isPA(x.Call.Args[0].Type())
+			}
+		}
+		return false
+	}
+	testsLabels := func(b *ssa.BasicBlock) bool {
+		for _, ins := range b.Instrs {
+			call, ok := ins.(*ssa.Call)
+			if !ok {
+				continue
+			}
+			// the selector evaluated as a label match: an empty selector matches everything, like no selector
+			if o := calleeObj(call); o != nil && (o.Name() == "SubsetOf" || o.Name() == "Match") && len(call.Call.Args) > 0 {
+				if f := fieldOfLoad(unwrap(call.Call.Args[0])); f != nil && f.Name() == "MatchLabels" {
+					return true
+				}
+			}
+			if bi, ok := call.Call.Value.(*ssa.Builtin); ok && bi.Name() == "len" && len(call.Call.Args) == 1 {
+				a := call.Call.Args[0]
+				if f := fieldOfLoad(a); f != nil && f.Name() == "MatchLabels" {
+					return true
+				}
+				if c2, ok := a.(*ssa.Call); ok {
+					if o := calleeObj(c2); o != nil && o.Name() == "GetMatchLabels" {
+						return true
+					}
+				}
+			}
+		}
+		return false
+	}
+	n := 0
+	for _, fn := range p.AllFuncs {
+		if !isIstioFunc(fn) || fn.Synthetic != "" || strings.HasSuffix(p.Fset.Position(fn.Pos()).Filename, "_test.go") {
+			continue
+		}
+		pp := funcPkgPath(fn)
+		if !strings.HasPrefix(pp, istioMod+"/pilot/pkg/") {
+			continue
+		}
+		ord := 0
+		msg := "this place classifies a PeerAuthentication as namespace-/mesh-level only when its selector is nil. A selector that is present but empty (`selector: {}`) is namespace-level for the sidecar side (addPeerAuthentication) and for the ambient function that picks a workload's policy keys; here it is taken for a workload-selector policy, so the namespace/mesh level this component composes differs from theirs (e.g. the converted ambient policy misses the STRICT namespace default the workload side counted on)"
+		eachInstr(fn, func(ins ssa.Instruction) {
+			bo, isB := ins.(*ssa.BinOp)
+			if !isB {
+				return
+			}
+			x, eq, ok := nilCmp(bo)
+			if !ok || !isPASelector(x) {
+				return
+			}
+			ord++
+			n++
+			name := fmt.Sprintf("selector==nil on a PeerAuthentication is paired with the empty-selector test: %s (#%d)", stableFnName(fn), ord)
+			// the branch(es) deciding on this comparison
+			paired, branches := true, 0
+			for _, i := range allIfs(fn) {
+				v, neg := stripNot(i.Cond)
+				if v != ssa.Value(bo) {
+					continue
+				}
+				branches++
+				nonNil := 0
+				if eq != neg {
+					nonNil = 1
+				}
+				if !testsLabels(i.Block().Succs[nonNil]) {
+					paired = false
+				}
+			}
+			c.Check(name, bo.Pos(), branches > 0 && paired, msg)
+		})
+	}
+	c.Check("selector tests on PeerAuthentication found", token.NoPos, n >= 2, "fewer nil tests on a PeerAuthentication selector than confirmed by hand (addPeerAuthentication, convertedSelectorPeerAuthentications)")
 	c.Floor(3)
 }
